@@ -136,7 +136,7 @@ def _value_of_kind(sx, kind, tag):
     if kind == 'int':
         return sx.int(tag + '_i', -3, 3)
     if kind == 'float':
-        return 1.5
+        return sx.choose(tag + '_f', [1.5, 2.0, -0.0, 1e30])       # with and without a fractional part
     if kind == 'str':
         n = sx.choose(tag + '_len', [0, 1, 10])
         if n == 10:
